@@ -101,7 +101,7 @@ func (sim) Explain(prop string, st map[string]int64) string {
 	case "C02":
 		probes = []string{"probe.c02w-checked", "probe.c02w-with-unconfirmed", "probe.c02w-direct-construction-compared", "probe.c02w-compared-with-both-kinds", "probe.reorg-with-wallet-tx", "probe.restart-tip-not-on-chain", "probe.node-moved-while-stopped", "fault.crash-at-commit"}
 	case "C13":
-		probes = []string{"probe.c13w-checked", "probe.c13w-with-unconfirmed", "probe.reorg-with-wallet-tx", "probe.same-address-paid-twice-by-one-transaction", "probe.c13w-own-outputs-checked"}
+		probes = []string{"probe.c13w-checked", "probe.c13w-with-unconfirmed", "probe.reorg-with-wallet-tx", "probe.same-address-paid-twice-by-one-transaction", "probe.payment-to-an-imported-single-key", "probe.c13w-own-outputs-checked"}
 	case "C01":
 		probes = []string{"probe.c01w-checked", "probe.c01w-with-leases", "probe.c01w-unconfirmed-credit", "probe.c01w-immature-coinbase", "probe.c01w-account-balances-checked"}
 	case "C15":
@@ -970,6 +970,27 @@ func (rs *runState) exec(task, step int, op core.Op) {
 	case "leaserace":
 		if x.running {
 			rs.leaserace(step, op)
+		}
+	case "importkey":
+		if x.running {
+			rs.importkey(step, op)
+		}
+	case "fundkey":
+		if len(x.importedKeys) == 0 {
+			return
+		}
+		a := x.importedKeys[int(uint64(op.Arg(0))%uint64(len(x.importedKeys)))]
+		v := op.Arg(1)
+		if v < 1000 {
+			v = 1000
+		}
+		tx := x.foreignTx([]*wire.TxOut{payTo(a, v), {Value: 555, PkScript: foreignScript(x.foreignN)}})
+		if err := x.node.Accept(tx); err == nil {
+			x.funding = append(x.funding, tx)
+			env.Count("op.fundkey")
+			env.Count("probe.payment-to-an-imported-single-key")
+			env.Eff()
+			env.Logf("%d fundkey %s %d", step, a, v)
 		}
 	case "release12":
 		if x.running {
